@@ -216,7 +216,7 @@ def known_class(kid, case, obs, prof):
     return bool(f) and f in L.parse_spec(case)['flags']
 
 
-LEVEL_TEXT = ('Coq theorems over the abstract loader model: for every abstract file that stores a document in any layout (one '
+LEVEL_TEXT = ('END TO END ON BYTES for the classic layout: C03_bytes_classic (coq/Properties/C03b.v, built by this check): for every document and classic layout, load_bytes (render_classic d l) — the loader model applied to the abstraction that the byte-level parser models compute from the bytes — loads exactly the document; load_bytes is compared with the real parse_data on classic files given as bytes only (family C03B). ' + 'Coq theorems over the abstract loader model: for every abstract file that stores a document in any layout (one '
               'section: table / xref stream / hybrid; objects in the file or in object streams; /Length direct or a backward/'
               'forward reference to an in-file integer) load answers Loaded with exactly the document\'s objects, their values, '
               'the trailer\'s root and nothing else but the layout\'s containers (C03_load, satisfiability shown); an entry whose '
@@ -228,3 +228,22 @@ LEVEL_NOTE = ('trusted: Coq kernel; hand transcription coq/Model/Loader.v at the
               'ocaml/drv.ml; harness/src/loader_common.rs.  Open known finding: /Length holder in an object stream')
 TECHNIQUE = ('Coq: invariants over the passes of parse_objects (deferred forward references), object-stream pass by freshness; '
              'differential correspondence on rendered files; independent python oracle (the document\'s own object table)')
+
+
+# ---------------------------------------------------------------------------------------------
+# Added by the coordinator: the end-to-end bytes theorem for the classic layout (coq/Properties/C03b.v:
+# C03_bytes_classic — load_bytes (render_classic d l) = Loaded exactly d's objects) is built by this check, and its
+# model `load_bytes` (coq/Model/LoaderBytes.v: abstraction computed FROM BYTES by the byte-level parser models, then
+# the loader model) is compared with the real parse_data on classic-layout files given as bytes only (props/c03b.py).
+COQ_EXTRA = ['Properties/C03b.v']
+DELEGATES = [('C03B', 400)]
+
+
+def delegate_oracle(did, case, obs, prof):
+    if obs == 'rejected' or obs.startswith('loaded '):
+        return None
+    return 'loader did not return on a classic-layout file: "%s"' % obs
+
+
+def delegate_nontrivial(did, case, obs):
+    return obs.startswith('loaded ')
